@@ -10,7 +10,7 @@ def check(tier, seed):
     res = C.Result('C12', tier, seed)
     res.rule = ('all request kinds x retry counts x failure patterns: every transmitted byte string compared with the model and with the '
                 'independent wire encoding of the frame packed at call time; serial backend over a stub port (short writes, baud-rate log), gpsd '
-                'backend over stub sockets (replies OK / ACK JSON / ERROR / garbage / socket errors, device names); non-trivial = >= 1 transmission')
+                'backend over stub sockets (replies OK / ACK JSON / ERROR / garbage / socket errors, device names; setup() handshakes over lists of several devices followed by a command); non-trivial = >= 1 transmission')
     with C.WorkDir('C12') as wd:
         C.audit_sources()
         C.props_obligations(res, 'C12', wd)
@@ -21,6 +21,9 @@ def check(tier, seed):
         cases = RC.run_suite(res, 'C12', tier, seed, 300, 10000, oracle=lambda sc, rq, r: S.canonical_tx_oracle(rq, r))
         from .. import backends as BK
         cases += BK.backend_cases(res, tier, seed)
+        # gpsd backend end to end: the device is selected by the handshake (DEVICES lists with several devices), then a command is sent
+        from .c20 import PATHS
+        res.notes['gpsd_setup_runs'] = BK.gpsd_setup_cases(res, 'C12', C.rng_for(seed, 'C12-gpsd-setup'), 40 if tier == 'quick' else 1500, PATHS)
         res.compare(cases)
         res.oblige('correspondence transmissions / backends (Tie A)', not res.disagreements)
         res.oblige('canonical-encoding and backend oracles on the implementation', not res.violations)
